@@ -830,8 +830,12 @@ class StrategyBase(Node):
         if self._paper_trade:
             if newpt:
                 self._paper.update(date)
-                self._paper.run()
-                self._paper.update(date)
+                # as in Backtest.run: once the copy has gone bankrupt its
+                # algos are no longer run, so that the index stays the one a
+                # stand-alone backtest of this strategy produces
+                if not self._paper.bankrupt:
+                    self._paper.run()
+                    self._paper.update(date)
             # update price
             self._price = self._paper.price
             self._prices.array[inow] = self._price
